@@ -107,7 +107,16 @@ impl<S> Meter<S> {
             if self.fail_kind == 1 && is_write {
                 return Ok(Some(0));
             }
-            return Err(std::io::Error::new(std::io::ErrorKind::Other, "injected fault"));
+            // the kind of the injected error (any kind is a failure of the stream; Interrupted is injected separately because it is retried by design)
+            let kind = match self.fail_kind {
+                2 => std::io::ErrorKind::UnexpectedEof,
+                3 => std::io::ErrorKind::BrokenPipe,
+                4 => std::io::ErrorKind::InvalidData,
+                5 => std::io::ErrorKind::WriteZero,
+                6 => std::io::ErrorKind::TimedOut,
+                _ => std::io::ErrorKind::Other,
+            };
+            return Err(std::io::Error::new(kind, "injected fault"));
         }
         Ok(None)
     }
